@@ -47,6 +47,13 @@ static Eigen::MatrixXd gen_matrix(Rng &r, int n, int kind) {
     case 2: for (int i = 0; i < n; i++) d(i) = (double)(i / 2);                            break;   // exactly degenerate pairs
     case 3: for (int i = 0; i < n; i++) d(i) = -5.0 + i * 0.7 + r.unit() * 0.1;            break;   // negative part
     case 4: for (int i = 0; i < n; i++) d(i) = std::pow(10.0, -3.0 + 6.0 * i / (n - 1));   break;   // six orders of magnitude
+    case 6:   // the family of the upstream unit test: sqrt(i) on the diagonal, 0.01/(i-j)^2 off it
+    {
+      Eigen::MatrixXd A = Eigen::MatrixXd::Zero(n, n);
+      for (int i = 0; i < n; i++) A(i, i) = std::sqrt((double)(i + 1));
+      for (int i = 0; i < n; i++) for (int j = i + 1; j < n; j++) A(i, j) = A(j, i) = 0.01 / ((double)(i - j) * (double)(i - j));
+      return round_sym(A);
+    }
     default:  // block decoupled: the lowest eigenvalue lives in a block whose diagonal entries are large
     {
       Eigen::MatrixXd A = Eigen::MatrixXd::Zero(n, n);
@@ -68,9 +75,12 @@ static void emit(std::ostringstream &o, const Eigen::MatrixXd &M) {
 
 static void symm_case(Rng &r) {
   int n = 4 + (int)r.below(20);
-  int kind = (int)r.below(6);
+  int kind = (int)r.below(7);
+  if (kind == 6) kind = 5; else if (kind == 5) kind = 6;   // 5 = block decoupled (the `default` branch), 6 = upstream family
   if (kind == 5 && n < 6) n = 6;
+  if (kind == 6) { n = 12 + (int)r.below(12); }
   int neigen = 1 + (int)r.below(std::max(1, n / 4));
+  if (kind == 6 && r.coin()) neigen = n / 3;    // many roots
   static const char *corr[] = {"DPR", "OLSEN"};
   static const char *upd[] = {"min", "safe", "max"};
   static const char *tols[] = {"loose", "normal", "strict", "lapack"};
